@@ -9,7 +9,12 @@
  * DISRUPT 0: clean stream      -> the sink receives exactly the original sections, in order, each once, complete
  * DISRUPT k: payload k dropped, the following one flagged as a discontinuity
  *                              -> only complete ORIGINAL sections are output, in order, none twice, and every section
- *                                 that starts in or after the first unit start following the gap is output */
+ *                                 that starts in or after the first unit start following the gap is output
+ * CORRUPT c: section c (1-based) carries an impossible header (long form announced with a length too short to hold
+ *            the extended header and CRC); its octets still occupy 3 + body length octets of the stream
+ *                              -> the sections before it are output, nothing made of the corrupt octets is, and every
+ *                                 section starting in a payload after the one in which the bad header became complete
+ *                                 is output (resynchronisation at the next unit start) */
 #include "pipe_env.h"
 #include "upipe/uref_block.h"
 #include "upipe/uref_flow.h"
@@ -24,6 +29,9 @@ static const int cuts[] = { CUTS };             /* payload k holds stream octets
 #endif
 #ifndef DISRUPT
 #define DISRUPT 0
+#endif
+#ifndef CORRUPT
+#define CORRUPT 0
 #endif
 #define MAXS 24
 static uint8_t stream[MAXS];
@@ -41,8 +49,13 @@ int main(void)
         /* the three header octets are concrete: the merger branches on them (stuffing test, announced length), and
          * symbolic ones make the shape of every buffer symbolic (measured: no verdict in 300 s); bodies are symbolic */
         stream[total++] = (uint8_t)(0x40 + s);      /* table_id */
+        if (CORRUPT != 0 && s == CORRUPT - 1) {
+            stream[total++] = 0xb0;                 /* long form announced ... */
+            stream[total++] = 0x05;                 /* ... with a length that cannot hold extended header + CRC */
+        } else {
         stream[total++] = 0x30;                     /* short form (syntax indicator 0), reserved bits, length high bits 0 */
         stream[total++] = (uint8_t)sec_len[s];
+        }
         for (int i = 0; i < sec_len[s]; i++)
             stream[total++] = nd_u8();
     }
@@ -92,6 +105,13 @@ int main(void)
                     resync = s;
         for (int s = 0; s < NSEC; s++)
             must[s] = DISRUPT == 0 || sec_start[s + 1] <= cuts[DISRUPT - 1] || s >= resync;
+        if (CORRUPT != 0) {
+            int j = 0;                              /* payload in which the bad header becomes complete */
+            while (j < NPAY && cuts[j + 1] <= sec_start[CORRUPT - 1] + 2)
+                j++;
+            for (int s = 0; s < NSEC; s++)
+                must[s] = s < CORRUPT - 1 || (s > CORRUPT - 1 && j + 1 < NPAY && sec_start[s] >= cuts[j + 1]);
+        }
     }
     upipe_release(P);
 
@@ -105,7 +125,7 @@ int main(void)
         int l = env_sink_read(sk, o, got, MAXS);
         int hit = -1;
         for (int s = NSEC - 1; s > last; s--) {
-            bool same = l == 3 + sec_len[s];
+            bool same = l == 3 + sec_len[s] && s != CORRUPT - 1;
             for (int i = 0; i < l && i < 3 + sec_len[s]; i++)
                 same = same && got[i] == stream[sec_start[s] + i];
             if (same)
@@ -120,7 +140,7 @@ int main(void)
     for (int s = 0; s < NSEC; s++)
         if (must[s])
             VASSERT(matched[s], "every section transmitted completely (before the gap, or from the next unit start on) is output");
-    if (DISRUPT == 0)
+    if (DISRUPT == 0 && CORRUPT == 0)
         VASSERT((int)sk->n_in == NSEC, "on a clean stream exactly the original sections are output, each once");
 #ifdef WITNESS
     VASSUME(sk->n_in >= 1);
